@@ -156,7 +156,7 @@ int64_t CdnsDecoder::read_integer() {
     bool was_key; int64_t key = 0; int t = r_take(true, was_key, key);
     if (was_key) return key;
     uint8_t k = tk_kind(t);
-    if (k != K_UINT && k != K_NEG) throw CdnsDecoderException("read_integer() called on wrong major type");
+    if (tk_tid(t) != TID_SINT && k != K_UINT && k != K_NEG) throw CdnsDecoderException("read_integer() called on wrong major type");
     int64_t v = k == K_UINT ? (int64_t)tk_u(t) : -1 - (int64_t)tk_u(t); r_consumed_value(); return v;
 }
 bool CdnsDecoder::read_bool() {
